@@ -73,6 +73,7 @@ PROPS["C07"] = {"units": [
 PROPS["C20"] = {"units": [
     plain_unit("sweep", "xor", "^TestC20Sweep$", overlay="plain"),
     rapid_unit("rapid", "xor", "^TestC20Rapid$", 30000, 16 * 300000, overlay="plain"),
+    rapid_unit("page-end", "xor", "^TestC20PageEnd$", 4000, 16 * 40000, overlay="plain"),
     fuzz_unit("fuzz", "xor", "FuzzC20", 90, overlay="plain"),
 ]}
 
@@ -101,6 +102,7 @@ PROPS["C16"] = {"units": [
     rapid_unit("e2e", "vnete2e", "^TestC16LossE2E$", 150, 16 * 1000, overlay="plain"),
     rapid_unit("long-stream", "vfilter", "^TestC16LongStream$", 10, 16 * 40, overlay="full", shrinktime="1s"),
     rapid_unit("concurrent-arrivals", "vfilter", "^TestC16Concurrent$", 60, 16 * 300, overlay="full", shrinktime="3s"),
+    rapid_unit("every-chance", "vfilter", "^TestC16EveryChance$", 2, 16 * 6, overlay="full", shrinktime="1s"),
 ]}
 
 PROPS["C02"] = {"units": [
